@@ -316,6 +316,7 @@ static void gen_x26(struct vf_rng *r, int mag, int have_pop, int have_drcs)
 	/* structured pieces */
 	i = 0;
 	if (vf_chance(r, 1, 2)) t[i++] = G_TRIP(40 + vf_range(r, 1, 23), 0x04, vf_below(r, 40));          /* set active position */
+	if (vf_chance(r, 1, 4)) t[i++] = G_TRIP(vf_below(r, 40), 0x0E, (vf_below(r, 8) << 4) | vf_below(r, 8));   /* font style (3.5): rows, italic/bold/proportional */
 	if (have_drcs && vf_chance(r, 2, 3)) {
 		t[i++] = G_TRIP(40 + vf_below(r, 24), 0x18, (vf_below(r, 2) << 6) | vf_below(r, 16));     /* DRCS mode */
 		t[i++] = G_TRIP(vf_below(r, 40), 0x0D, (vf_below(r, 2) << 6) | vf_below(r, 50));          /* DRCS char */
@@ -411,8 +412,13 @@ static void gen_x28_m29(struct vf_rng *r, int mag, int packet, int role)
 		if (role == R_GPOP && vf_chance(r, 1, 2)) fn = 2;
 		g_bits_put(&b, (unsigned)fn, 4);
 		g_bits_put(&b, vf_below(r, 8), 3);
-		g_bits_put(&b, vf_chance(r, 1, 2) ? vf_below(r, 128) : vf_below(r, 88), 7);   /* primary charset */
-		g_bits_put(&b, vf_chance(r, 1, 2) ? vf_below(r, 128) : vf_below(r, 88), 7);   /* secondary */
+		{
+			/* one designation in three names a non-Latin G0 set (EN 300 706 table 32: Cyrillic 1-3, Greek, Arabic,
+			   Hebrew): other glyph ranges, other italic / bold variants of the renderers' fonts */
+			static const uint8_t nonlatin[] = { 0x20, 0x24, 0x25, 0x24, 0x37, 0x40, 0x44, 0x47, 0x55, 0x57 };
+			g_bits_put(&b, vf_chance(r, 1, 3) ? nonlatin[vf_below(r, sizeof nonlatin)] : vf_chance(r, 1, 2) ? vf_below(r, 128) : vf_below(r, 88), 7);   /* primary charset */
+			g_bits_put(&b, vf_chance(r, 1, 3) ? nonlatin[vf_below(r, sizeof nonlatin)] : vf_chance(r, 1, 2) ? vf_below(r, 128) : vf_below(r, 88), 7);   /* secondary */
+		}
 		g_bits_put(&b, vf_below(r, 8), 3);                                              /* panels */
 		g_bits_put(&b, vf_below(r, 16), 4);
 		for (i = 0; i < 16; i++) g_bits_put(&b, vf_below(r, 4096), 12);
